@@ -173,6 +173,9 @@ def _match_known(prop, obname, clause, known):
     return None
 
 
+_RUN = {"tier": "quick", "seed": 0}
+
+
 def _write_replay(prop, obname, out, clause, detail, inputs, verdict):
     d = os.path.join(ROOT, "replays")
     os.makedirs(d, exist_ok=True)
@@ -180,6 +183,7 @@ def _write_replay(prop, obname, out, clause, detail, inputs, verdict):
     path = os.path.join(d, f"{safe}.json")
     json.dump({"property": prop, "obligation": obname, "clause": clause, "engine": out.get("engine"),
                "functions": out.get("functions"), "verdict": verdict, "detail": detail, "inputs": inputs,
+               "tier": _RUN["tier"], "seed": _RUN["seed"],
                "verifier_output": {"status": out.get("status"), "detail": out.get("detail"),
                                    "clauses": out.get("clauses")},
                "tree": _git_desc()}, open(path, "w"), indent=1, default=str)
@@ -206,8 +210,23 @@ def replay(path):
                         return 1
                     print(f"not reproduced on this tree: {obname} holds at the recorded input")
                     return 0
-        elif hasattr(item, 'replay') and item.replay(r):
-            return item.replay_result
+        elif item.kind == 'B' and r["obligation"] == f"{prop}.{item.name}.bounded":
+            # bounded checks are deterministic given (tier, seed): re-run and look for the recorded clause
+            out = _run_B(item, r["obligation"], None, r.get("tier", "quick"), int(r.get("seed", 0)))
+            fails = (out.get("bounded") or {}).get("failures") or []
+            hit = [f for f in fails if f.get("clause") == r.get("clause")] or fails
+            if hit:
+                print(f"REPRODUCED {r['obligation']}: {hit[0]['clause']}: {hit[0]['detail'][:300]}")
+                return 1
+            print(f"not reproduced on this tree: {r['obligation']} holds for tier={r.get('tier')} seed={r.get('seed')}")
+            return 0
+        elif item.kind == 'P' and r["obligation"] == f"{prop}.{item.name}":
+            out = item.run(r["obligation"], None, r.get("tier", "quick"), int(r.get("seed", 0)))
+            if out.get("status") == "proved":
+                print(f"not reproduced on this tree: every verification condition of {r['obligation']} is discharged")
+                return 0
+            print(f"REPRODUCED {r['obligation']}: status {out.get('status')}: {out.get('detail', '')[:600]}")
+            return 1
     print("obligation not found / not replayable:", r["obligation"])
     print(json.dumps(r.get("verifier_output"), indent=1)[:3000])
     return 1
@@ -229,6 +248,7 @@ def main(argv=None):
         return replay(a.replay)
     prop = a.prop
     tier = a.tier if a.tier in ("quick", "thorough") else "quick"
+    _RUN.update(tier=tier, seed=a.seed)
     t0 = time.time()
     try:
         items = _load(prop)
